@@ -525,6 +525,60 @@ func genC13Directed(r *rand.Rand, run int) *vm.Plan {
 	return h.p
 }
 
+// genC13Files: every round of a long-lived authorizer gets its content as a stored policy file
+// (LoadPolicies after Reset); the files of successive rounds have the same size and differ in one
+// string, and the verifier reads each into the same buffer. What decides a round is the file of
+// that round.
+func genC13Files(r *rand.Rand, run int) *vm.Plan {
+	h := newHist(r, 1, false)
+	g := h.g
+	key := h.issuers[0]
+	auth := g.BlockFor(nil, 2, 1, 0)
+	t := h.build(key, auth, nil)
+	if r.Intn(2) == 0 {
+		t = h.attenuate(t, g.BlockFor(auth.Facts, 1, 1, 0))
+	}
+	lim := &vm.Lim{MaxDurNs: 1e9}
+	az := h.add(vm.Op{K: "az", A: t, KS: &vm.KeySel{Key: key}, Lim: lim, Out: h.slot()})
+	names := []string{"file1", "file2", "file3", "file4"}
+	r.Shuffle(len(names), func(i, j int) { names[i], names[j] = names[j], names[i] })
+	have := names[r.Intn(2)]
+	res := func(s string) ref.Pred { return ref.Pred{Name: "resource", Terms: []ref.Term{ref.Str(s)}} }
+	qs := []ref.Rule{{Head: ref.Pred{Name: "resource", Terms: []ref.Term{ref.Var("x")}}, Body: []ref.Pred{{Name: "resource", Terms: []ref.Term{ref.Var("x")}}}}}
+	var twins []vm.Op
+	rounds := 2 + r.Intn(3)
+	for rd := 0; rd < rounds; rd++ {
+		want := names[rd%len(names)]
+		if r.Intn(3) == 0 {
+			want = have
+		}
+		content := ref.Authz{
+			Facts: []ref.Pred{res(have)},
+			Policies: []ref.Policy{
+				{Allow: true, Queries: []ref.Rule{{Head: ref.Pred{Name: "query"}, Body: []ref.Pred{res(want)}}}},
+				{Allow: false, Queries: []ref.Rule{gen.TrueQuery()}},
+			},
+		}
+		if r.Intn(3) == 0 {
+			content.Checks = []ref.Check{{Queries: []ref.Rule{{Head: ref.Pred{Name: "query"}, Body: []ref.Pred{res(names[(rd+1)%len(names)])}}}}}
+		}
+		name := fmt.Sprintf("round%d", rd)
+		h.add(vm.Op{K: "azadd", A: az, Az: &content, Flags: []string{"via-load"}})
+		h.add(vm.Op{K: "azauth", A: az, Qs: qs, Name: name})
+		tw := vm.Op{K: "verify", A: t, KS: &vm.KeySel{Key: key}, Az: &content, Qs: qs, Lim: lim, Name: name}
+		if r.Intn(2) == 0 {
+			tw.Flags = []string{"via-load"}
+		}
+		twins = append(twins, tw)
+		h.add(vm.Op{K: "azreset", A: az})
+	}
+	for _, tw := range twins {
+		h.add(tw)
+	}
+	h.p.Note = "policy files"
+	return h.p
+}
+
 func c13SweepN(tier string) int {
 	if tier == "thorough" {
 		return 120
@@ -649,6 +703,9 @@ func init() {
 				p := genC13(r, run, tier)
 				p.Faults, p.Tape, p.Lazy = nil, nil, false
 				return p
+			}
+			if run%16 == 5 {
+				return genC13Files(r, run)
 			}
 			return genC13(r, run, tier)
 		},
